@@ -2,7 +2,8 @@
    Part 1 (C18): a readable characterisation of "the derive macro accepts the declaration" (Model/Derive.v):
    derive_full d = Some pvs  <->  every variant is well-attributed, ids are distinct, and every declared path ends in a master that
    declares the path before it.
-   Part 2 (C18): the writer's "Bad specification implementation" panic for a RawTag carrying a declared non-binary id.
+   Part 2 (C18): a RawTag carrying a declared non-binary id is written as is (repair D27; it used to reach the writer's "Bad
+   specification implementation" panic) - the concrete scenarios; the general theorems are in Proofs/WriterNoPanic.v.
    Part 3 (C07): the all-known-size re-encoding of a conforming document conforms, PROVIDED the whole document fits an 8-byte size
    field and the configured maximum element size ([fits]); so the second [conf] hypothesis of encoding_choices_irrelevant follows from
    the first for g := map known_tree f.  Without [fits] the statement is false (c_max limits known sizes but not unknown-size
@@ -270,28 +271,22 @@ Qed.
 (* ================================================================== Part 2: RawTag with a declared id, handed to the writer *)
 Definition test_sp : spec := match derive test_decl with Some s => s | None => [] end.
 
-(* RawTag(id, data) answers as_binary only.  With the repository's test specification: id 0x4101 is declared UnsignedInt (written inside its parent 0x81) and
-   0x81 Master: the writer panics; 0xa1 is declared Binary: written (here rejected only because it is not allowed at the root);
-   an undeclared id is written as a raw element *)
-Lemma writer_raw_panics :
-  snd (buffer_tag test_sp (TElem 0x4101 (VRaw [1])) o_default (fst (buffer_tag test_sp (TStart 0x81) o_default (w_init [])))) = WPanic /\
-  snd (buffer_tag test_sp (TElem 0x81 (VRaw [])) o_default (w_init [])) = WPanic /\
-  snd (buffer_tag test_sp (TElem 0xa1 (VRaw [1])) o_default (w_init [])) = WErr (EUnexpectedTag 0xa1 []) /\
+(* RawTag(id, data) answers as_binary only.  Since the repair D27 the writer writes such a tag as is whatever type its id is declared
+   with (Writer.raw_type).  With the repository's test specification: id 0x4101 is declared UnsignedInt (written inside its parent 0x81)
+   and 0x81 Master: id, size, data are appended, no hierarchy check, no panic (before the repair both panicked); 0xa1 is declared
+   Binary: treated as the declared binary element (here rejected only because it is not allowed at the root); an undeclared id is
+   written as a raw element.  The last line: a whole run Start(0x81), RawTag(0x4101,[1]), End(0x81) and the bytes delivered *)
+Lemma writer_raw_written_ex :
+  buffer_tag test_sp (TElem 0x4101 (VRaw [1])) o_default (fst (buffer_tag test_sp (TStart 0x81) o_default (w_init []))) =
+    ({| w_open := [(0x81, WKnown 0, O)]; w_buf := [0x41; 0x01; 0x81; 1]; w_dest := []; w_script := [] |}, WOk) /\
+  buffer_tag test_sp (TElem 0x81 (VRaw [])) o_default (w_init []) =
+    ({| w_open := []; w_buf := [0x81; 0x80]; w_dest := []; w_script := [] |}, WOk) /\
+  buffer_tag test_sp (TElem 0xa1 (VRaw [1])) o_default (w_init []) = (w_init [], WErr (EUnexpectedTag 0xa1 [])) /\
   buffer_tag test_sp (TElem 0x4242 (VRaw [1])) o_default (w_init []) =
-    ({| w_open := []; w_buf := [0x42; 0x42; 0x81; 1]; w_dest := []; w_script := [] |}, WOk).
+    ({| w_open := []; w_buf := [0x42; 0x42; 0x81; 1]; w_dest := []; w_script := [] |}, WOk) /\
+  run_writer test_sp [OpWrite (TStart 0x81) o_default; OpWrite (TElem 0x4101 (VRaw [1])) o_default; OpWrite (TEnd 0x81) o_default] [] =
+    ([(WOk, 0%nat); (WOk, 0%nat); (WOk, 6%nat)], [0x81; 0x84; 0x41; 0x01; 0x81; 1]).
 Proof. vm_compute. repeat split; reflexivity. Qed.
-
-(* in general: an element tag whose value is a raw payload under an id declared with a type other than Binary (Master included)
-   panics, whatever the state and options (unless the unknown-size option is refused first) *)
-Lemma writer_raw_panic_general sp id data o st ty : get_type sp id = Some ty -> ty <> DBinary -> o_unknown o = false ->
-  (ty = DMaster \/ w_validate sp id (w_open st) = true) ->
-  snd (buffer_tag sp (TElem id (VRaw data)) o st) = WPanic.
-Proof.
-  intros Hty Hnb Hu Hv. cbn [buffer_tag tag_id]. rewrite Hty, Hu. cbn [andb is_master_tag negb].
-  destruct ty; try (contradiction Hnb; reflexivity); cbn [is_master_ty andb negb is_end];
-    try (destruct Hv as [Hv|Hv]; [discriminate Hv|rewrite Hv; cbn [negb]; reflexivity]).
-  reflexivity.
-Qed.
 
 (* ================================================================== Part 3: all-known re-encoding *)
 (* every unknown-size master re-encoded with a known size in an 8-byte size field (same length as the unknown-size marker,
